@@ -1,24 +1,675 @@
 package format
 
+// C20 — code generator naming: FileNamingFormat renders identifiers
+// deterministically from a style template. Harness injected by /verif
+// (overlay); see /verif/DESIGN.md "C20" and harness/C20/verif.json.
+//
+// The oracle is a reference written from the property statement only:
+//
+//   template = prefix + GO-word + through + DESIGNER-word + suffix
+//   result   = prefix + join(words(identifier) cased, through) + suffix
+//
+// with every place where the statement is silent made explicit as a SET of
+// admissible readings (the result must equal one of them in full) or as
+// UNSPECIFIED (run for panics and determinism only):
+//
+//   * a template in which the two words can be located in more than one way
+//     (case-insensitively, ASCII) admits the outcome of every such parse, and
+//     "rejected" as well when some 'go' stands after some 'designer';
+//   * "upper-case letters" is read both as ASCII A-Z and as Unicode upper/title
+//     case; the casing of 'Go' is read as ToTitle or ToUpper of the first rune
+//     with the rest of the word unchanged or lower-cased; all these readings
+//     coincide for identifiers over [A-Za-z0-9_];
+//   * title-casing a word that contains anything but letters and digits, and
+//     identifiers that are not valid UTF-8, are UNSPECIFIED.
+
 import (
+	"fmt"
+	"os"
+	"strconv"
+	"strings"
 	"testing"
+	"unicode"
+	"unicode/utf8"
 
 	"pgregory.net/rapid"
 	"verif.local/kit"
 )
 
-type c20Probe struct {
-	T string `json:"t"`
+func init() {
+	// bin/check always sets VERIF_KNOWN to /verif/known_findings.txt, which a
+	// harness builder must not edit. A private list can be supplied with
+	// VERIF_KNOWN_PRIVATE (kit reads VERIF_KNOWN lazily, after init).
+	if p := os.Getenv("VERIF_KNOWN_PRIVATE"); p != "" {
+		os.Setenv("VERIF_KNOWN", p)
+	}
 }
 
-func TestVerif_C20_probe(t *testing.T) {
-	kit.Run(t, "C20", "probe", kit.Opts{Quick: 10, Thorough: 10},
-		func(rt *rapid.T) c20Probe { return c20Probe{T: rapid.SampledFrom([]string{"go_designer"}).Draw(rt, "t")} },
-		func(c c20Probe) kit.Verdict {
-			_, err := FileNamingFormat(c.T, "a_b")
-			if err != nil {
-				return kit.Verdict{Fail: err.Error()}
+// ---------------------------------------------------------------- case data
+
+// Strings are stored strconv.Quote'd (without the outer quotes) so that
+// invalid UTF-8 and unprintable runes survive the JSON replay file exactly.
+type c20Case struct {
+	T  string `json:"t"`            // template
+	I  string `json:"i"`            // identifier
+	T2 string `json:"t2,omitempty"` // unrelated call made between the two evaluations
+	I2 string `json:"i2,omitempty"`
+	N  bool   `json:"n,omitempty"` // make the unrelated call
+}
+
+func c20Q(s string) string { q := strconv.Quote(s); return q[1 : len(q)-1] }
+
+func c20U(s string) string {
+	u, err := strconv.Unquote(`"` + s + `"`)
+	if err != nil {
+		panic("c20: case string does not unquote: " + s)
+	}
+	return u
+}
+
+// ---------------------------------------------------------------- reference
+
+const (
+	c20Lower = iota
+	c20Upper
+	c20Title
+	c20Mixed
+)
+
+var c20StyleName = [...]string{"lower", "upper", "title", "mixed"}
+
+func c20Fold(b byte) byte {
+	if 'A' <= b && b <= 'Z' {
+		return b + 'a' - 'A'
+	}
+	return b
+}
+
+// c20Occ: byte offsets at which word (lower-case ASCII) occurs in t, ASCII
+// case-insensitively. Bytes >= 0x80 never match, so offsets are rune aligned.
+func c20Occ(t, word string) []int {
+	var out []int
+	for i := 0; i+len(word) <= len(t); i++ {
+		ok := true
+		for k := 0; k < len(word); k++ {
+			if c20Fold(t[i+k]) != word[k] {
+				ok = false
+				break
 			}
-			return kit.Verdict{NonTrivial: true}
+		}
+		if ok {
+			out = append(out, i)
+		}
+	}
+	return out
+}
+
+// c20WordStyle: the casing in which word (given in lower case) is written in s.
+func c20WordStyle(s, word string) int {
+	up := []byte(word)
+	for i := range up {
+		up[i] -= 'a' - 'A'
+	}
+	switch s {
+	case word:
+		return c20Lower
+	case string(up):
+		return c20Upper
+	case string(up[:1]) + word[1:]:
+		return c20Title
+	}
+	return c20Mixed
+}
+
+type c20Parse struct {
+	pre, thr, suf string
+	gs, ds        int
+}
+
+func (p c20Parse) reject() bool { return p.gs == c20Mixed || p.ds == c20Mixed }
+
+// c20Template: every way of reading t as prefix+go+through+designer+suffix,
+// whether "rejected" is an admissible outcome, and a class label.
+func c20Template(t string) (parses []c20Parse, rejectOK bool, class string) {
+	gos, des := c20Occ(t, "go"), c20Occ(t, "designer")
+	for _, i := range gos {
+		for _, j := range des {
+			if j >= i+2 {
+				parses = append(parses, c20Parse{
+					pre: t[:i], thr: t[i+2 : j], suf: t[j+8:],
+					gs: c20WordStyle(t[i:i+2], "go"), ds: c20WordStyle(t[j:j+8], "designer"),
+				})
+			}
+		}
+	}
+	if len(parses) == 0 {
+		switch {
+		case len(gos) == 0 && len(des) == 0:
+			class = "reject-neither-word"
+		case len(gos) == 0:
+			class = "reject-no-go"
+		case len(des) == 0:
+			class = "reject-no-designer"
+		default:
+			class = "reject-reversed"
+		}
+		return nil, true, class
+	}
+	reversed := false
+	for _, i := range gos {
+		for _, j := range des {
+			if i > j {
+				reversed = true
+			}
+		}
+	}
+	anyRender := false
+	for _, p := range parses {
+		if p.reject() {
+			rejectOK = true
+		} else {
+			anyRender = true
+		}
+	}
+	switch {
+	case len(parses) == 1 && !reversed && anyRender:
+		class = "valid"
+	case len(parses) == 1 && !reversed:
+		class = "reject-mixed-casing"
+	case !anyRender:
+		class = "reject-mixed-casing-multi"
+	default:
+		class = "ambiguous"
+	}
+	if reversed {
+		rejectOK = true
+	}
+	return parses, rejectOK, class
+}
+
+func c20Words(id string, unicodeReading bool) []string {
+	var words []string
+	var cur []rune
+	flush := func() {
+		if len(cur) > 0 {
+			words = append(words, string(cur))
+			cur = cur[:0]
+		}
+	}
+	for _, r := range id {
+		if r == '_' {
+			flush()
+			continue
+		}
+		up := 'A' <= r && r <= 'Z'
+		if unicodeReading && r >= utf8.RuneSelf && (unicode.IsUpper(r) || unicode.IsTitle(r)) {
+			up = true
+		}
+		if up {
+			flush()
+		}
+		cur = append(cur, r)
+	}
+	flush()
+	return words
+}
+
+func c20Plain(w string) bool {
+	for _, r := range w {
+		if !unicode.IsLetter(r) && !unicode.IsDigit(r) {
+			return false
+		}
+	}
+	return true
+}
+
+// c20Cased: word in the given style; variant selects the reading of title
+// casing (bit 0: ToUpper instead of ToTitle; bit 1: lower-case the rest).
+func c20Cased(w string, style, variant int) string {
+	rs := []rune(w)
+	for i, r := range rs {
+		switch style {
+		case c20Lower:
+			rs[i] = unicode.ToLower(r)
+		case c20Upper:
+			rs[i] = unicode.ToUpper(r)
+		case c20Title:
+			if i == 0 {
+				if variant&1 != 0 {
+					rs[i] = unicode.ToUpper(r)
+				} else {
+					rs[i] = unicode.ToTitle(r)
+				}
+			} else if variant&2 != 0 {
+				rs[i] = unicode.ToLower(r)
+			}
+		}
+	}
+	return string(rs)
+}
+
+// c20Render: the admissible file names for parse p and identifier id; unspec
+// is non-empty when the statement does not determine the result.
+func c20Render(p c20Parse, id string) (cands []string, unspec string) {
+	if !utf8.ValidString(id) {
+		return nil, "ident-invalid-utf8"
+	}
+	seen := map[string]bool{}
+	for reading := 0; reading < 2; reading++ {
+		words := c20Words(id, reading == 1)
+		for i, w := range words {
+			st := p.ds
+			if i == 0 {
+				st = p.gs
+			}
+			if st == c20Title && !c20Plain(w) {
+				return nil, "title-of-word-with-punctuation"
+			}
+		}
+		for variant := 0; variant < 4; variant++ {
+			parts := make([]string, len(words))
+			for i, w := range words {
+				st := p.ds
+				if i == 0 {
+					st = p.gs
+				}
+				parts[i] = c20Cased(w, st, variant)
+			}
+			s := p.pre + strings.Join(parts, p.thr) + p.suf
+			if !seen[s] {
+				seen[s] = true
+				cands = append(cands, s)
+			}
+		}
+	}
+	return cands, ""
+}
+
+// c20KnownShift characterises the finding "upper-index-shift" (FINDINGS.md):
+// FileNamingFormat searches the words in strings.ToUpper(template) and slices
+// the ORIGINAL template with the offsets found there. The predicate is true
+// exactly when those offsets differ from the offsets of the first ASCII
+// case-insensitive occurrences in the template itself (a rune before the
+// words whose upper-case image has another encoded length, an invalid byte
+// that ToUpper widens to U+FFFD, or a non-ASCII rune folding to an ASCII
+// letter of the words such as U+017F or U+0131).
+func c20KnownShift(t string) bool {
+	a := []byte(t)
+	for i, b := range a {
+		if 'a' <= b && b <= 'z' {
+			a[i] = b - ('a' - 'A')
+		}
+	}
+	u := strings.ToUpper(t)
+	return strings.Index(u, "GO") != strings.Index(string(a), "GO") ||
+		strings.Index(u, "DESIGNER") != strings.Index(string(a), "DESIGNER")
+}
+
+type c20Result struct {
+	s     string
+	err   string
+	isErr bool
+	panic string
+}
+
+func c20Call(t, id string) (r c20Result) {
+	defer func() {
+		if p := recover(); p != nil {
+			r = c20Result{panic: fmt.Sprint(p)}
+		}
+	}()
+	s, err := FileNamingFormat(t, id)
+	r.s = s
+	if err != nil {
+		r.isErr = true
+		r.err = err.Error()
+	}
+	return r
+}
+
+func c20IdentClasses(id string, add func(string)) {
+	if id == "" {
+		add("id:empty")
+		return
+	}
+	if !utf8.ValidString(id) {
+		add("id:invalid-utf8")
+		return
+	}
+	w := c20Words(id, false)
+	switch {
+	case len(w) == 0:
+		add("id:words=0")
+	case len(w) == 1:
+		add("id:words=1")
+	case len(w) == 2:
+		add("id:words=2")
+	default:
+		add("id:words>=3")
+	}
+	if strings.Contains(id, "__") {
+		add("id:repeated-underscore")
+	}
+	if strings.HasPrefix(id, "_") || strings.HasSuffix(id, "_") {
+		add("id:edge-underscore")
+	}
+	ascii, digit, acronym, punct, uniUpper := true, false, false, false, false
+	prevUp := false
+	for _, r := range id {
+		if r >= utf8.RuneSelf {
+			ascii = false
+			if unicode.IsUpper(r) || unicode.IsTitle(r) {
+				uniUpper = true
+			}
+		}
+		if '0' <= r && r <= '9' {
+			digit = true
+		}
+		up := 'A' <= r && r <= 'Z'
+		if up && prevUp {
+			acronym = true
+		}
+		prevUp = up
+		if r != '_' && !unicode.IsLetter(r) && !unicode.IsDigit(r) {
+			punct = true
+		}
+	}
+	if !ascii {
+		add("id:non-ascii")
+	}
+	if uniUpper {
+		add("id:unicode-upper")
+	}
+	if digit {
+		add("id:digits")
+	}
+	if acronym {
+		add("id:acronym")
+	}
+	if punct {
+		add("id:punctuation")
+	}
+}
+
+// c20Judge runs one (template, identifier) pair against the code and the
+// reference. noise, when non-nil, is called between the two evaluations.
+func c20Judge(t, id string, noise func()) (v kit.Verdict) {
+	cls := map[string]bool{}
+	add := func(c string) { cls[c] = true }
+	defer func() {
+		for c := range cls {
+			v.Classes = append(v.Classes, c)
+		}
+	}()
+
+	parses, rejectOK, tclass := c20Template(t)
+	add("tpl:" + tclass)
+	for i := 0; i < len(t); i++ {
+		if t[i] >= utf8.RuneSelf {
+			add("tpl:non-ascii")
+			break
+		}
+	}
+	shift := c20KnownShift(t)
+	if shift {
+		add("tpl:upper-index-shift")
+	}
+	c20IdentClasses(id, add)
+
+	fail := func(format string, args ...any) kit.Verdict {
+		v.Fail = fmt.Sprintf("FileNamingFormat(%q, %q): ", t, id) + fmt.Sprintf(format, args...)
+		if shift {
+			v.Known = "upper-index-shift"
+		}
+		return v
+	}
+
+	r1 := c20Call(t, id)
+	if noise != nil {
+		noise()
+	}
+	r2 := c20Call(t, id)
+	if r1.panic != "" {
+		return fail("panic: %s", r1.panic)
+	}
+	if r1 != r2 {
+		return fail("not deterministic: first call %+v, second call %+v", r1, r2)
+	}
+
+	if len(parses) == 0 {
+		if !r1.isErr {
+			return fail("template lacks a word or has the words in the wrong order (%s) but was accepted: %q", tclass, r1.s)
+		}
+		return v
+	}
+	if r1.isErr {
+		if !rejectOK {
+			p := parses[0]
+			return fail("valid template (prefix %q, go in %s case, through %q, designer in %s case, suffix %q) rejected: %s",
+				p.pre, c20StyleName[p.gs], p.thr, c20StyleName[p.ds], p.suf, r1.err)
+		}
+		return v
+	}
+	// accepted: the result must be an admissible rendering of one parse in full
+	var want []string
+	nrender := 0
+	for _, p := range parses {
+		if p.reject() {
+			continue
+		}
+		nrender++
+		cands, unspec := c20Render(p, id)
+		if unspec != "" {
+			add("oracle:unspecified:" + unspec)
+			return v
+		}
+		for _, c := range cands {
+			if c == r1.s {
+				if len(parses) == 1 && !rejectOK {
+					if len(cands) == 1 {
+						add("oracle:exact")
+					} else {
+						add("oracle:one-of-readings")
+					}
+					add("style:" + c20StyleName[p.gs] + "/" + c20StyleName[p.ds])
+					v.NonTrivial = p.gs != p.ds && len(c20Words(id, false)) >= 2
+				} else {
+					add("oracle:one-of-parses")
+				}
+				return v
+			}
+		}
+		want = append(want, cands...)
+	}
+	if nrender == 0 {
+		return fail("template has the words only in mixed casing (%s) but was accepted: %q", tclass, r1.s)
+	}
+	if len(want) > 6 {
+		want = want[:6]
+	}
+	return fail("got %q, want one of %q", r1.s, want)
+}
+
+// ---------------------------------------------------------------- generators
+
+var c20Special = []string{
+	"ſ", "ı", "K", "ɐ", "İ", "ß", "ǆ", "ι", "ȿ", "é", "É",
+	"用户", "前缀", "后缀", "\xff", "\xc3", "\xe4\xb8", "�", " ",
+}
+
+func c20Fragment() *rapid.Generator[string] {
+	return rapid.Custom(func(rt *rapid.T) string {
+		switch k := rapid.IntRange(0, 99).Draw(rt, "fk"); {
+		case k < 30:
+			return ""
+		case k < 50:
+			return rapid.SampledFrom([]string{"_", "-", "#", ".", "###", "/", " ", "__", "*", "{", "}", "[", "]", ".tmpl", "_gen"}).Draw(rt, "sep")
+		case k < 68:
+			// cannot contain either word: no d, g, o
+			return rapid.StringMatching(`[a-cefh-np-zA-CEFH-NP-Z0-9_#. \-]{0,6}`).Draw(rt, "plain")
+		case k < 78:
+			return rapid.SampledFrom([]string{"g", "o", "G", "O", "og", "d", "D", "de", "des", "design", "designe", "esigner",
+				"DESIGNE", "g_o", "desinger", "g0", "d_e_s_i_g_n_e_r"}).Draw(rt, "near")
+		case k < 84:
+			return rapid.SampledFrom([]string{"go", "GO", "Go", "gO", "designer", "Designer", "DESIGNER", "deSigner", "go_designer", "designergo"}).Draw(rt, "ambig")
+		case k < 92:
+			return rapid.SampledFrom(c20Special).Draw(rt, "special") + rapid.SampledFrom([]string{"", "", "_", "x"}).Draw(rt, "tail")
+		default:
+			return rapid.StringN(0, 4, 12).Draw(rt, "any")
+		}
+	})
+}
+
+func c20MixedCasing(rt *rapid.T, word string) string {
+	for {
+		m := rapid.IntRange(1, 1<<len(word)-2).Draw(rt, "mask")
+		b := []byte(word)
+		for i := range b {
+			if m&(1<<i) != 0 {
+				b[i] -= 'a' - 'A'
+			}
+		}
+		if c20WordStyle(string(b), word) == c20Mixed {
+			return string(b)
+		}
+	}
+}
+
+func c20TemplateGen() *rapid.Generator[string] {
+	frag := c20Fragment()
+	return rapid.Custom(func(rt *rapid.T) string {
+		goW := rapid.SampledFrom([]string{"go", "GO", "Go"}).Draw(rt, "go")
+		deW := rapid.SampledFrom([]string{"designer", "DESIGNER", "Designer"}).Draw(rt, "designer")
+		pre, thr, suf := frag.Draw(rt, "pre"), frag.Draw(rt, "thr"), frag.Draw(rt, "suf")
+		switch k := rapid.IntRange(0, 99).Draw(rt, "shape"); {
+		case k < 62:
+			return pre + goW + thr + deW + suf
+		case k < 68:
+			return pre + thr + deW + suf // no go
+		case k < 74:
+			return pre + goW + thr + suf // no designer
+		case k < 80:
+			return pre + deW + thr + goW + suf // reversed
+		case k < 85:
+			return pre + c20MixedCasing(rt, "go") + thr + deW + suf
+		case k < 91:
+			return pre + goW + thr + c20MixedCasing(rt, "designer") + suf
+		case k < 94:
+			return pre + thr + suf
+		case k < 97:
+			return rapid.String().Draw(rt, "anytpl")
+		default:
+			return string(rapid.SliceOfN(rapid.Byte(), 0, 16).Draw(rt, "bytes"))
+		}
+	})
+}
+
+func c20IdentGen() *rapid.Generator[string] {
+	lower := rapid.StringMatching(`[a-z]{1,8}`)
+	word := rapid.Custom(func(rt *rapid.T) string {
+		switch k := rapid.IntRange(0, 99).Draw(rt, "wk"); {
+		case k < 45:
+			return lower.Draw(rt, "w")
+		case k < 60:
+			return rapid.StringMatching(`[A-Z][a-z]{0,6}`).Draw(rt, "w")
+		case k < 70:
+			return rapid.StringMatching(`[A-Z]{2,5}`).Draw(rt, "w")
+		case k < 78:
+			return rapid.StringMatching(`[a-z]{1,4}[A-Z][a-z]{1,4}`).Draw(rt, "w")
+		case k < 88:
+			return rapid.StringMatching(`[a-z]{0,3}[0-9]{1,3}[a-zA-Z]{0,3}`).Draw(rt, "w")
+		default:
+			return rapid.StringMatching(`[a-zA-Z]`).Draw(rt, "w")
+		}
+	})
+	uniWord := rapid.SampledFrom([]string{"été", "用户", "straße", "ñandú", "ǆa", "ſ", "σς",
+		"État", "Ünï", "İx", "ǅa", "Σx", "aÉb", "აბ", "é"})
+	sep := rapid.SampledFrom([]string{"_", "_", "_", "_", "_", "_", "_", "", "", "__", "___"})
+	edge := rapid.SampledFrom([]string{"", "", "", "", "_", "__"})
+	join := func(rt *rapid.T, ws []string) string {
+		var b strings.Builder
+		b.WriteString(edge.Draw(rt, "lead"))
+		for i, w := range ws {
+			if i > 0 {
+				b.WriteString(sep.Draw(rt, "sep"))
+			}
+			b.WriteString(w)
+		}
+		b.WriteString(edge.Draw(rt, "trail"))
+		return b.String()
+	}
+	return rapid.Custom(func(rt *rapid.T) string {
+		switch k := rapid.IntRange(0, 99).Draw(rt, "ik"); {
+		case k < 58:
+			return join(rt, rapid.SliceOfN(word, 1, 6).Draw(rt, "words"))
+		case k < 65:
+			return rapid.SampledFrom([]string{"", "_", "__", "HTTPServer", "welcome_to_go_designer", "WelcomeToGoDesigner", "A", "a",
+				"user_info", "userID", "ID", "_A_", "a_b_CD_EF", "go_designer", "GoDesigner", "GOD", "zhkGo_designer", "x1", "1x", "9"}).Draw(rt, "fixed")
+		case k < 80:
+			return join(rt, rapid.SliceOfN(rapid.OneOf(word, uniWord), 1, 4).Draw(rt, "uwords"))
+		case k < 88:
+			return rapid.String().Draw(rt, "anyid")
+		case k < 95:
+			return join(rt, rapid.SliceOfN(rapid.OneOf(word, rapid.SampledFrom([]string{"user-info", "a.b", "a b", "x-", "-x", "a b", "a—b", "#"})), 1, 3).Draw(rt, "pwords"))
+		default:
+			return string(rapid.SliceOfN(rapid.Byte(), 0, 12).Draw(rt, "idbytes"))
+		}
+	})
+}
+
+// ---------------------------------------------------------------- rules
+
+// naming-render: random (template, identifier) pairs of every kind.
+func TestVerif_C20_naming_render(t *testing.T) {
+	tg, ig := c20TemplateGen(), c20IdentGen()
+	kit.Run(t, "C20", "naming-render", kit.Opts{Quick: 60000, Thorough: 3200000},
+		func(rt *rapid.T) c20Case {
+			c := c20Case{T: c20Q(tg.Draw(rt, "t")), I: c20Q(ig.Draw(rt, "i"))}
+			if rapid.Bool().Draw(rt, "noise") {
+				c.N = true
+				c.T2, c.I2 = c20Q(tg.Draw(rt, "t2")), c20Q(ig.Draw(rt, "i2"))
+			}
+			return c
+		},
+		func(c c20Case) kit.Verdict {
+			var noise func()
+			if c.N {
+				t2, i2 := c20U(c.T2), c20U(c.I2)
+				noise = func() { c20Call(t2, i2) }
+			}
+			return c20Judge(c20U(c.T), c20U(c.I), noise)
 		})
+}
+
+// naming-casings: every one of the 4 x 256 casings of the two words, in three
+// layouts, against three identifiers: exactly the 3 x 3 single-casing
+// combinations are accepted and rendered, everything else is rejected.
+func TestVerif_C20_naming_casings(t *testing.T) {
+	layouts := [][3]string{{"", "_", ""}, {"x-", "", ".y"}, {"[", "###", "]"}}
+	idents := []string{"welcome_to_go_designer", "HTTPServer2", "a"}
+	casing := func(word string, m int) string {
+		b := []byte(word)
+		for i := range b {
+			if m&(1<<i) != 0 {
+				b[i] -= 'a' - 'A'
+			}
+		}
+		return string(b)
+	}
+	kit.Enumerate(t, "C20", "naming-casings",
+		func(yield func(c20Case) bool) {
+			for _, l := range layouts {
+				for g := 0; g < 4; g++ {
+					for d := 0; d < 256; d++ {
+						for _, id := range idents {
+							tpl := l[0] + casing("go", g) + l[1] + casing("designer", d) + l[2]
+							if !yield(c20Case{T: c20Q(tpl), I: c20Q(id)}) {
+								return
+							}
+						}
+					}
+				}
+			}
+		},
+		func(c c20Case) kit.Verdict { return c20Judge(c20U(c.T), c20U(c.I), nil) })
 }
